@@ -26,6 +26,9 @@ type DecorSpec struct {
 	Listen bool   // implements decor.ShutdownListener
 	Depth  int    // user wrapper levels around the decorator
 	Ewma   bool   // implements decor.EwmaDecorator
+	// Builtin selects a decorator of the library itself instead of the recording probe:
+	// "ewmaeta", "ewmaspeed", "percentage", "counters", "elapsed", "avgeta", "avgspeed"
+	Builtin string
 }
 
 type BarSpec struct {
@@ -63,7 +66,7 @@ func (o Op) String() string {
 		s += fmt.Sprintf("%d(%d,%v)", o.B, o.N, o.F)
 	case "abort":
 		s += fmt.Sprintf("%d(%v)", o.B, o.F)
-	case "write":
+	case "write", "writebuf":
 		s += fmt.Sprintf("(%q)", o.S)
 	}
 	return s
@@ -189,6 +192,9 @@ func (d DecorSpec) short() string {
 	if d.Ewma {
 		s += ":E"
 	}
+	if d.Builtin != "" {
+		s += ":" + d.Builtin
+	}
 	if len(d.Widths) > 0 {
 		s += fmt.Sprint(d.Widths)
 	}
@@ -261,6 +267,38 @@ type userWrap struct{ decor.Decorator }
 func (w userWrap) Unwrap() decor.Decorator { return w.Decorator }
 
 func (x *X) buildDecor(bar, side, ord int, ds DecorSpec) decor.Decorator {
+	if ds.Builtin != "" {
+		wc := decor.WC{W: ds.W}
+		if ds.Sync {
+			wc.C |= decor.DSyncWidth
+		}
+		var d decor.Decorator
+		switch ds.Builtin {
+		case "ewmaeta":
+			d = decor.EwmaETA(decor.ET_STYLE_GO, 30, wc)
+		case "ewmaspeed":
+			d = decor.EwmaSpeed(decor.SizeB1024(0), "% .1f", 30, wc)
+		case "percentage":
+			d = decor.Percentage(wc)
+		case "counters":
+			d = decor.CountersNoUnit("%d/%d", wc)
+		case "elapsed":
+			d = decor.Elapsed(decor.ET_STYLE_GO, wc)
+		case "avgeta":
+			d = decor.AverageETA(decor.ET_STYLE_GO, wc)
+		case "avgspeed":
+			d = decor.AverageSpeed(0, "%.1f", wc)
+		default:
+			d = decor.Name(ds.Builtin, wc)
+		}
+		for i := 0; i < ds.Depth; i++ {
+			d = userWrap{d}
+		}
+		if ds.Wrap == "complete" {
+			d = decor.OnComplete(d, "done")
+		}
+		return d
+	}
 	wc := decor.WC{W: ds.W}
 	if ds.Sync {
 		wc.C |= decor.DSyncWidth
@@ -309,18 +347,19 @@ func (x *X) buildDecor(bar, side, ord int, ds DecorSpec) decor.Decorator {
 }
 
 type runner struct {
-	sp     *Spec
-	x      *X
-	p      *mpb.Progress
-	bars   []*mpb.Bar
-	mrc    chan interface{}
-	delay  chan struct{}
-	notify chan interface{}
-	cancel func()
-	stop   chan struct{} // closed when refreshing can no longer be consumed
-	stopO  sync.Once
-	line   int
-	wg     *sync.WaitGroup
+	sp      *Spec
+	x       *X
+	p       *mpb.Progress
+	bars    []*mpb.Bar
+	mrc     chan interface{}
+	delay   chan struct{}
+	notify  chan interface{}
+	cancel  func()
+	stop    chan struct{} // closed when refreshing can no longer be consumed
+	stopO   sync.Once
+	line    int
+	wg      *sync.WaitGroup
+	scratch [512]byte
 }
 
 var errFill = errors.New("filler failed")
@@ -428,7 +467,7 @@ func (r *runner) do(client int, op Op) {
 	x := r.x
 	var bar *mpb.Bar
 	switch op.K {
-	case "add", "write", "refresh", "cancel", "shutdown", "undelay", "yield", "pwait", "join":
+	case "add", "write", "writebuf", "refresh", "cancel", "shutdown", "undelay", "yield", "pwait", "join":
 	default:
 		if op.B < 0 || op.B >= len(r.bars) || r.bars[op.B] == nil {
 			x.Calls = append(x.Calls, Call{Client: client, Op: op.String(), Inv: mcrt.Step(), Ret: mcrt.Step() + 1, Res: "skipped"})
@@ -474,6 +513,17 @@ func (r *runner) do(client int, op Op) {
 				return fmt.Sprintf("%d,err:%v", n, err)
 			}
 			return fmt.Sprintf("%d,nil", n)
+		case "writebuf":
+			// the caller reuses one scratch buffer for every line, as a logger does
+			n := copy(r.scratch[:], op.S)
+			wn, err := r.p.Write(r.scratch[:n])
+			if err != nil {
+				if err == mpb.ErrDone {
+					return fmt.Sprintf("%d,ErrDone", wn)
+				}
+				return fmt.Sprintf("%d,err:%v", wn, err)
+			}
+			return fmt.Sprintf("%d,nil", wn)
 		case "refresh":
 			select {
 			case r.mrc <- time.Now():
@@ -599,6 +649,10 @@ func (sp *Spec) Run(x *X) {
 		x.call(0, "pwait", func() string { r.p.Wait(); return "" })
 		x.WaitStep = mcrt.Step()
 		x.WritesAtWait = len(x.Writes)
+		x.ShutAtWait = make([]int, len(x.shutCounts))
+		for i, c := range x.shutCounts {
+			x.ShutAtWait[i] = c
+		}
 		r.stopRefresh()
 	}
 	wg.Wait()
